@@ -28,6 +28,7 @@ type Mutant struct {
 	// All: replace every occurrence of Find (renames); default: exactly one
 	All  bool `json:"all,omitempty"`
 	More []struct {
+		File    string `json:"file,omitempty"` // another file of the repository (default: File)
 		Find    string `json:"find"`
 		Replace string `json:"replace"`
 	} `json:"more,omitempty"`
@@ -93,23 +94,41 @@ func Thorough(c *core.Ctx, repo, verif string) {
 				results[i] = res
 				return
 			}
-			mod := strings.Replace(string(src), m.Find, m.Replace, -1)
+			mods := map[string]string{m.File: strings.Replace(string(src), m.Find, m.Replace, -1)}
+			order := []string{m.File}
 			stale := false
 			for _, e := range m.More {
-				if strings.Count(mod, e.Find) != 1 {
+				f := e.File
+				if f == "" {
+					f = m.File
+				}
+				if _, ok := mods[f]; !ok {
+					b, err := os.ReadFile(filepath.Join(repo, f))
+					if err != nil {
+						stale = true
+						break
+					}
+					mods[f] = string(b)
+					order = append(order, f)
+				}
+				if strings.Count(mods[f], e.Find) != 1 {
 					stale = true
 					break
 				}
-				mod = strings.Replace(mod, e.Find, e.Replace, 1)
+				mods[f] = strings.Replace(mods[f], e.Find, e.Replace, 1)
 			}
 			if stale {
 				res.Status = "stale"
 				results[i] = res
 				return
 			}
-			mf := filepath.Join(tmp, fmt.Sprintf("m%d.go", i))
-			os.WriteFile(mf, []byte(mod), 0o644)
-			cmd := exec.Command(exe, "-property", c.Prop, "-tier", "quick", "-repo", repo, "-verif", verif, "-mutant-run", "-overlay", m.File+"="+mf)
+			var ov []string
+			for j, f := range order {
+				mf := filepath.Join(tmp, fmt.Sprintf("m%d_%d.go", i, j))
+				os.WriteFile(mf, []byte(mods[f]), 0o644)
+				ov = append(ov, f+"="+mf)
+			}
+			cmd := exec.Command(exe, "-property", c.Prop, "-tier", "quick", "-repo", repo, "-verif", verif, "-mutant-run", "-overlay", strings.Join(ov, ","))
 			out, err := cmd.CombinedOutput()
 			if !strings.Contains(string(out), "MUTANT-DONE") {
 				res.Status = "error"
